@@ -7,16 +7,22 @@ for m in sorted(glob.glob('/verif/seeded/*/meta.json')):
     c = d.get('confirmation', {})
     checks = c.get('checks', {})
     ran = ', '.join('%s:%s' % (k, {0: 'ok', 1: 'VIOLATION', 2: 'inconclusive'}.get(v['exit'], v['exit'])) for k, v in sorted(checks.items()))
-    rows.append((c.get('name', os.path.basename(os.path.dirname(m))), d.get('property', ''), ', '.join(c.get('caught_by', [])) or '— (missed)', ran,
+    caught = ', '.join(c.get('caught_by', [])) or '— (missed)'
+    if d.get('obsolete') and not c.get('caught_by'):
+        caught = 'n/a — no longer breaks the property (see meta.json: obsolete)'
+    rows.append((c.get('name', os.path.basename(os.path.dirname(m))), d.get('property', ''), caught, ran,
                  d.get('needs_to_manifest', '').replace('\n', ' ')[:230]))
 with open('/verif/seeded/RESULTS.md', 'w') as f:
     f.write('# Independently seeded changes: which check catches which\n\n')
     f.write('Every change below was written by a sub-agent that saw only the text of one property and a scratch worktree. It is kept only after\n'
             'confirmation here (tools/seedeval.py): the patch applies, the library builds, the unedited pinned suite passes with it, the demonstration\n'
-            'fails with it and passes without it. The checks were then run (quick tier, seed 1) on /repo with the patch applied, and the patch undone.\n\n')
+            'fails with it and passes without it. The checks were then run (quick tier, seed 1) on /repo with the patch applied, and the patch undone.\n'
+            'Patches are relative to the /repo HEAD at the time of seeding (first wave, -a/-b: 5da832f; second wave, -c/-d: fa07ba2); later repairs in /repo may\n'
+            'touch the same lines.\n\n')
     f.write('| change | property | caught by | checks run | needs, to manifest |\n|---|---|---|---|---|\n')
     for r in rows:
         f.write('| %s | %s | %s | %s | %s |\n' % r)
-    caught = sum(1 for r in rows if not r[2].startswith('—'))
-    f.write('\n%d of %d kept changes are caught by at least one check in the quick tier.\n' % (caught, len(rows)))
+    live = [r for r in rows if not r[2].startswith('n/a')]
+    caught = sum(1 for r in live if not r[2].startswith('—'))
+    f.write('\n%d of %d kept changes that still break their property are caught by at least one check in the quick tier (%d kept in all).\n' % (caught, len(live), len(rows)))
 print(open('/verif/seeded/RESULTS.md').read()[-400:])
